@@ -697,6 +697,10 @@ func parseBandwidth(s string) (uint64, error) {
 	s = strings.ToUpper(s)
 
 	i := strings.IndexFunc(s, unicode.IsLetter)
+	if i < 0 {
+		// no unit, the whole string is the value
+		i = len(s)
+	}
 
 	bytesString, multiple := s[:i], s[i:]
 	bytes, err := strconv.ParseFloat(bytesString, 64)
